@@ -75,11 +75,33 @@ static uint8_t out[1024]; static size_t outn;
 static void dg_bn(const bn_t a) { outn = bn_size_bin(a); if (outn > sizeof(out)) outn = sizeof(out); bn_write_bin(out, outn, a); }
 static void dg_ep(const ep_t a) { outn = ep_size_bin(a, 0); ep_write_bin(out, outn, a, 0); }
 
+/* results larger than a fresh integer's initial allocation: bn_grow has to realloc (a caller with the
+ * library's own try/finally discipline around a temporary) */
+static bn_t BIG1, BIG2, BIGF;
+#define BIGOP(fn, stmt) static void fn(void) { bn_t t; bn_null(t); \
+	RLC_TRY { bn_new(t); stmt; dg_bn(t); } RLC_CATCH_ANY { RLC_THROW(ERR_CAUGHT); } RLC_FINALLY { bn_free(t); } }
+BIGOP(big_mul, bn_mul(t, BIG1, BIG2))
+BIGOP(big_sqr, bn_sqr(t, BIG1))
+BIGOP(big_lsh, bn_lsh(t, A, 64 * RLC_BN_SIZE + 13))
+BIGOP(big_add, (bn_copy(t, BIGF), bn_add(t, t, BIGF)))
+BIGOP(big_muldig, (bn_copy(t, BIGF), bn_mul_dig(t, t, 251)))
+static void big_copy(void) {
+	bn_t t, u; bn_null(t); bn_null(u);
+	RLC_TRY { bn_new(t); bn_new(u); bn_mul(t, BIG1, BIG2); bn_copy(u, t); dg_bn(u); }
+	RLC_CATCH_ANY { RLC_THROW(ERR_CAUGHT); } RLC_FINALLY { bn_free(t); bn_free(u); }
+}
+
 static int do_call(const char *c) {
 	volatile int err = 0;
 	outn = 0;
 #define CALL(name, stmt) if (strcmp(c, name) == 0) { VH_TRY(err, stmt); return err; }
 	CALL("bn_mul", (bn_mul(C, A, B), dg_bn(C)))
+	CALL("bn_mul_big", big_mul())
+	CALL("bn_sqr_big", big_sqr())
+	CALL("bn_lsh_big", big_lsh())
+	CALL("bn_add_big", big_add())
+	CALL("bn_mul_dig_big", big_muldig())
+	CALL("bn_copy_big", big_copy())
 	CALL("bn_sqr", (bn_sqr(C, A), dg_bn(C)))
 	CALL("bn_div_rem", (bn_div_rem(C, D, A, M), dg_bn(D)))
 	CALL("bn_mod", (bn_mod(C, A, M), dg_bn(C)))
@@ -147,6 +169,11 @@ int main(int argc, char **argv) {
 	bn_read_str(B, "7FFFFFFFFFFFFFFFFFFFFFFFFFFFFFFF5D576E7357A4501DDFE92F46681B20A1", 64, 16);
 	bn_read_str(M, "FFFFFFFFFFFFFFFFFFFFFFFFFFFFFFFFFFFFFFFFFFFFFFFFFFFFFFFEFFFFFC2F", 64, 16);
 	bn_mod(E, B, M);
+	bn_null(BIG1); bn_null(BIG2); bn_null(BIGF); bn_new(BIG1); bn_new(BIG2); bn_new(BIGF);
+	bn_set_2b(BIG1, RLC_DIG * (RLC_BN_SIZE / 2 + 3)); bn_sub(BIG1, BIG1, A);      /* RLC_BN_SIZE / 2 + 3 digits */
+	bn_set_2b(BIG2, RLC_DIG * (RLC_BN_SIZE / 2 + 2)); bn_add(BIG2, BIG2, B);
+	bn_set_dig(BIGF, 1); bn_lsh(BIGF, BIGF, RLC_DIG * RLC_BN_SIZE); bn_sub_dig(BIGF, BIGF, 1);   /* all ones, exactly the initial size */
+	if (core_get()->code != RLC_OK || BIGF->used != RLC_BN_SIZE) { fprintf(stdout, "setup failed\n"); return 2; }
 	fp_prime_conv(FA, A);
 	ep_curve_get_gen(P); ep_dbl(Q, P); ep_norm(Q, Q);
 	ep_curve_get_ord(D); bn_mod(E, A, D); ep_mul_gen(Q, E);        /* ECDSA key pair (E, Q) */
